@@ -10,6 +10,9 @@ import (
 	"sync/atomic"
 	"time"
 
+	"github.com/spf13/viper"
+	"go.uber.org/zap"
+
 	"github.com/linkedin/Burrow/core/protocol"
 	"github.com/linkedin/Burrow/core/verifhook"
 )
@@ -39,7 +42,27 @@ func genStorage(g *gen) {
 	ncases := 250 * g.scale
 	for i := 0; i < ncases; i++ {
 		g.newCase()
-		if i%6 == 4 {
+		if i%9 == 7 {
+			// the configuration phase: which settings and lists the module ends up with
+			opt := func(vals ...int64) string {
+				if g.chance(1, 2) {
+					return "-"
+				}
+				return fmt.Sprint(g.pick(vals...))
+			}
+			lst := func(pats ...string) string {
+				switch g.intn(4) {
+				case 0:
+					return "-"
+				case 1:
+					return "E"
+				}
+				return hexName(g.pickS(pats...))
+			}
+			for k := 0; k < 3; k++ {
+				g.emit("S sconf %s %s %s %s %s %s %s", opt(1, 2, 10, 15), opt(5, 3600, 604800), opt(0, 1, 30), opt(1, 4, 20), opt(1, 8), lst("^g", "^g[01]", "a$"), lst("1$", "^x", "team"))
+			}
+		} else if i%6 == 4 {
 			genStorageMixed(g)
 		} else if g.chance(2, 5) {
 			genStorageRing(g)
@@ -281,7 +304,11 @@ type storageRunner struct {
 	lastBroker  []*protocol.StorageRequest
 	hold        chan struct{} // fault injection: serve() stops taking requests until released
 	kept        []keptReply   // consumer detail replies handed out since init, with what they said then
+	evCoord     *verifhook.EvaluatorCoordinator
+	sconfN      int
 }
+
+var sconfSamples = []string{"g0", "g1", "x1", "", "team-a", "g 3"}
 
 type keptReply struct {
 	reply protocol.ConsumerTopics
@@ -680,6 +707,99 @@ func (s *storageRunner) step(r *runner, line string) {
 		} else {
 			r.resolve("S cq %d %s %s %s", now, f[2], f[3], f[4])
 		}
+		r.reply("%s", res)
+	case "sconf":
+		// S sconf <intervals> <expire-group> <min-distance> <workers> <queue-depth> <allowRe> <denyRe>   ("-" = key absent,
+		// "E" = key present with the empty string): the REAL Configure of the storage module on such a section; prints the
+		// settings it ends up with and its verdict on a few group names.  resolved: … + match bits of each list per sample
+		s.sconfN++
+		root := fmt.Sprintf("storage.sconf%d", s.sconfN)
+		for i, key := range []string{"intervals", "expire-group", "min-distance", "workers", "queue-depth"} {
+			if f[2+i] != "-" {
+				viper.Set(root+"."+key, atoi(f[2+i]))
+			}
+		}
+		bits := [2]string{"-", "-"}
+		for i, key := range []string{"group-allowlist", "group-denylist"} {
+			switch f[7+i] {
+			case "-":
+			case "E":
+				viper.Set(root+"."+key, "")
+			default:
+				pat := unhexName(f[7+i])
+				viper.Set(root+"."+key, pat)
+				re := regexp.MustCompile(pat)
+				b := ""
+				for _, smp := range sconfSamples {
+					b += bit(re.MatchString(smp))
+				}
+				bits[i] = b
+			}
+		}
+		r.resolve("%s %s %s", line, bits[0], bits[1])
+		if s.app.Logger == nil {
+			s.app.Logger = zap.NewNop()
+		}
+		r.reply("%s", guard(func() string {
+			m := verifhook.ConfigureStorage(s.app, "sconf", root)
+			iv, exp, md, wk, qd := m.Settings()
+			acc := ""
+			for _, smp := range sconfSamples {
+				acc += bit(m.Accept(smp))
+			}
+			return fmt.Sprintf("sconf iv=%d exp=%d md=%d wk=%d qd=%d acc=%s", iv, exp, md, wk, qd, acc)
+		}))
+	case "cburst":
+		// S cburst <n> <cluster> <group,group,…>: n status requests sent back to back from n goroutines through the REAL
+		// evaluator coordinator (real Configure and Start: request forwarder + the module's main loop) on the application's
+		// EvaluatorChannel.  Every request gets exactly one reply, and it names the request's own cluster and group.
+		r.resolve("%s", line)
+		if s.evCoord == nil {
+			if s.app.Logger == nil {
+				s.app.Logger = zap.NewNop()
+			}
+			s.app.EvaluatorChannel = make(chan *protocol.EvaluatorRequest)
+			viper.Set("evaluator", map[string]interface{}{"burst": map[string]interface{}{"class-name": "caching", "expire-cache": 10}})
+			c, err := verifhook.StartEvaluatorCoordinator(s.app)
+			if err != nil {
+				r.reply("bad-op")
+				return
+			}
+			s.evCoord = c
+		}
+		n := int(atoi(f[2]))
+		groups := strings.Split(f[4], ",")
+		reqs := make([]*protocol.EvaluatorRequest, n)
+		for i := range reqs {
+			reqs[i] = &protocol.EvaluatorRequest{Cluster: unhexName(f[3]), Group: unhexName(groups[i%len(groups)]), ShowAll: i%2 == 0, Reply: make(chan *protocol.ConsumerGroupStatus, 4)}
+		}
+		res := guard(func() string {
+			start := make(chan struct{})
+			for _, q := range reqs {
+				go func(q *protocol.EvaluatorRequest) {
+					<-start
+					s.app.EvaluatorChannel <- q
+				}(q)
+			}
+			close(start)
+			answered, named, extra := 0, "ok", 0
+			deadline := time.Now().Add(5 * time.Second)
+			for _, q := range reqs {
+				select {
+				case st := <-q.Reply:
+					answered++
+					if st == nil || st.Cluster != q.Cluster || st.Group != q.Group {
+						named = "wrong"
+					}
+				case <-time.After(time.Until(deadline)):
+				}
+			}
+			time.Sleep(30 * time.Millisecond)
+			for _, q := range reqs {
+				extra += len(q.Reply)
+			}
+			return fmt.Sprintf("burst=%d/%d named=%s extra=%d", answered, n, named, extra)
+		})
 		r.reply("%s", res)
 	case "consumer":
 		now := stableNow()
